@@ -348,7 +348,7 @@ def mutate_config(rng, cfg: Dict[str, Any]):
     """Return (kind, new config, structure_or_metadata_changed)."""
     new = json.loads(json.dumps(cfg))
     kinds = ["identical", "values", "values", "rename-accessory", "add-service", "remove-service", "add-char", "metadata",
-             "char-description"]
+             "char-description", "set-primary", "link-service"]
     if cfg["bridge"]:
         kinds += ["add-accessory", "remove-accessory"]
     rng.shuffle(kinds)
@@ -395,6 +395,13 @@ def mutate_config(rng, cfg: Dict[str, Any]):
             if "On" in SERVICES[svc["type"]]["vals"] and "On" not in svc["desc"]:
                 svc["desc"]["On"] = "Power " + str(rng.randrange(100))
                 return kind, new, True
+        if kind == "set-primary" and svc.get("primary") is None:
+            svc["primary"] = rng.choice([True, False])  # absent -> stated (also "primary": false is metadata)
+            return kind, new, True
+        if kind == "link-service" and len(acc["services"]) > 1 and svc.get("linked") is None:
+            others = [i for i, x in enumerate(acc["services"]) if x is not svc]
+            svc["linked"] = rng.choice(others)
+            return kind, new, True
         if kind == "add-accessory":
             new["accs"].append({"name": "Extra", "aid": max(a["aid"] for a in new["accs"]) + 1,
                                 "services": [{"type": "Switch", "opt": [], "vals": {}, "meta": {}, "desc": {}}]})
@@ -411,14 +418,21 @@ def build_accessories(m, driver, cfg):
     leaves = []
     for a in cfg["accs"]:
         acc = A.Accessory(driver, a["name"], aid=a["aid"])
+        built = []
         for s in a["services"]:
             svc = acc.add_preload_service(s["type"], chars=list(s["opt"]))
+            built.append(svc)
             for c, ov in s["meta"].items():
                 svc.get_characteristic(c).override_properties(properties=dict(ov))
             for c, v in s["vals"].items():
                 svc.get_characteristic(c).set_value(v)
             for c, d in s["desc"].items():  # last: characteristics are looked up by display name
                 svc.get_characteristic(c).display_name = d
+            if s.get("primary") is not None:
+                svc.is_primary_service = s["primary"]
+        for s, svc in zip(a["services"], built):
+            if s.get("linked") is not None and s["linked"] < len(built) and built[s["linked"]] is not svc:
+                svc.add_linked_service(built[s["linked"]])
         leaves.append(acc)
     if cfg["bridge"]:
         root = A.Bridge(driver, "Bridge")
@@ -442,7 +456,8 @@ def abstract_db(root) -> List[Dict[str, Any]]:
                 props = {k: (sorted(v.values()) if isinstance(v, dict) else v) for k, v in ch.properties.items()}
                 meta = json.dumps([str(ch.type_id), ch.display_name, props], sort_keys=True, default=str)
                 chars.append({"iid": acc.iid_manager.get_iid(ch), "meta": meta, "value": json.dumps(ch.value, default=str)})
-            smeta = json.dumps([str(s.type_id), bool(s.is_primary_service), [str(x.type_id) for x in s.linked_services]])
+            smeta = json.dumps([str(s.type_id), s.is_primary_service,
+                                [[str(x.type_id), acc.iid_manager.get_iid(x)] for x in s.linked_services]])
             svcs.append({"iid": acc.iid_manager.get_iid(s), "meta": smeta, "chars": chars})
         out.append({"aid": acc.aid, "services": svcs})
     return out
@@ -727,7 +742,8 @@ def oracle_xrestart(ctx: Ctx, chain, got):
 
 def _strip_values(cfg: Dict[str, Any]):
     """Structure and metadata of a config descriptor (what a restart may react to): no values, no names."""
-    return [cfg["bridge"], [[a["aid"], [[s["type"], list(s["opt"]), s["meta"], s["desc"]] for s in a["services"]]]
+    return [cfg["bridge"], [[a["aid"], [[s["type"], list(s["opt"]), s["meta"], s["desc"], s.get("primary"), s.get("linked")]
+                                        for s in a["services"]]]
                             for a in cfg["accs"]]]
 
 
